@@ -138,7 +138,9 @@ def frames_of(evs):
 def query_of(evs):
     q = {}
     for e in evs:
-        if e.startswith('qc'):
+        if e.startswith('qp'):
+            q['pending'] = int(e[2:])
+        elif e.startswith('qc'):
             c, fl, la, lb = e[2:].split(':')
             q['c' + c] = dict(clA=fl[0] == '1', clB=fl[1] == '1', failed=fl[2] == '1', toA=int(la), toB=int(lb))
         elif e.startswith('q'):
@@ -243,3 +245,265 @@ def gen_scenario(rng, sid, profile):
     steps = [x for x in steps if x]
     steps.append('Q')
     return Scn(sid, k=k, sp=sp, m=m, lim=lim, toA=toA, toB=toB, steps=steps, meta=dict(profile=profile))
+
+
+# ---- generic check driver -----------------------------------------------------------------
+def history(scn, r):
+    """Per-scenario digest used by the oracles: for each step (label, ret, pends, frames, query)."""
+    h = []
+    for stp, evs in zip(r['concrete'], r['go']):
+        h.append(dict(step=stp.split('@')[0], ret=ret_of(evs), pends=pends_of(evs), frames=frames_of(evs),
+                      q=query_of(evs) if stp.startswith('Q') else None,
+                      closes=[e for e in evs if re.match(r'c[AB]\d+$', e)]))
+    return h
+
+
+def check(ctx, verdict, pid, scns, oracle, extra_broken=None, race=False):
+    """Run scenarios, compare with the model, apply the oracle.  oracle(scn, hist) -> None | (signature, message)."""
+    res, problems, dt = run(ctx, scns, pid.lower(), race=race)
+    broken = list(problems)
+    ndiff, first = 0, None
+    nfail = 0
+    kinds = {}
+    labels = {}
+    distinct = set()
+    for s in scns:
+        r = res.get(s.id)
+        kinds[s.meta.get('profile', '?')] = kinds.get(s.meta.get('profile', '?'), 0) + 1
+        if r is None:
+            continue
+        if r.get('panic'):
+            nfail += 1
+            verdict.oracle_failure('panic', '%s: implementation panicked: %s' % (pid, r['panic'][:200]),
+                                   dict(scenario=s.line(), how='tools/check.py %s --replay <this file>' % pid))
+            continue
+        distinct.add(' '.join(r['concrete']))
+        for stp in r['concrete']:
+            labels[stp[0]] = labels.get(stp[0], 0) + 1
+        d = diff(r)
+        if d is not None:
+            ndiff += 1
+            cand = (len(r['concrete']), s, r, d)
+            if first is None or cand[0] < first[0]:
+                first = cand
+        msg = oracle(s, history(s, r))
+        if msg:
+            nfail += 1
+            if nfail <= 2:
+                sig, what = msg
+                verdict.oracle_failure(sig, '%s oracle: %s' % (pid, what),
+                                       dict(scenario=s.line(r['concrete']), abstract=s.line(), implementation=[','.join(e) for e in r['go']],
+                                            model=[','.join(e) for e in (r['model'] or [])],
+                                            how='python3 tools/check.py %s --replay <this file>' % pid))
+    if first is not None:
+        n, s, r, d = first
+        broken.append(('model Mux.v vs multiplex.Session: %d of %d scenarios differ' % (ndiff, len(scns)),
+                       'smallest differing scenario %s, first difference at step %d (%s)\nconfig: %s\nsteps: %s\nimplementation: %s\nmodel:          %s'
+                       % (s.id, d, r['concrete'][d][:80] if d < len(r['concrete']) else '?', s.head(),
+                          ' '.join(x[:60] for x in r['concrete'][:d + 1])[-3000:],
+                          ','.join(r['go'][d]) if d < len(r['go']) else None,
+                          ','.join(r['model'][d]) if r['model'] and d < len(r['model']) else None)))
+    if extra_broken:
+        broken += extra_broken
+    verdict.cov.update(evaluations=len(scns), distinct_nontrivial=len(distinct),
+                       traces_validated_against_impl=sum(1 for s in scns if res.get(s.id) and res[s.id].get('go')),
+                       mismatches=ndiff, oracle_failures=nfail,
+                       input_distribution=dict(profiles=kinds, labels=labels),
+                       samples=[scns[0].line()[:600], scns[len(scns) // 2].line()[:600]],
+                       exhaustive=False)
+    return dict(broken=broken)
+
+
+def replay_scenario(ctx, verdict, pid, oracle):
+    r0 = ctx.replay
+    line = r0.get('scenario') or r0.get('abstract')
+    if not line:
+        print(json.dumps(r0, indent=1)[:3000]); return 0
+    head, steps = line.split('|', 1)
+    hf = head.split()
+    kv = dict(x.split('=') for x in hf[1:])
+    s = Scn(hf[0], k=int(kv['k']), sp=int(kv['sp']), m=int(kv['m']), lim=int(kv['lim']), toA=int(kv['toA']), toB=int(kv['toB']),
+            steps=[x.split('@')[0] for x in steps.split()], meta=dict(profile='replay'))
+    res, problems, dt = run(ctx, [s], 'replay')
+    r = res.get(s.id)
+    print('problems:', problems)
+    if r and r.get('go'):
+        for stp, g, m in zip(r['concrete'], r['go'], r['model'] or [[]] * len(r['go'])):
+            print('%-40s impl=%s model=%s' % (stp[:40], ','.join(g)[:200], ','.join(m)[:200]))
+        msg = oracle(s, history(s, r))
+        print('oracle:', msg)
+        return 1 if msg else 0
+    return 1
+
+
+# ---- property oracles (model-independent: they read only what the implementation did) -----
+def digest(hist):
+    """written / read byte strings per (side, sid), emission log per (side, sid), who closed what."""
+    W, R, E = {}, {}, {}
+    info = dict(local_close=set(), sess_close=set(), fail=False, tick=False, werr=[], after_close_write_ok=[], open_ret=[])
+    closed_stream = set()   # (side, sid) closed locally (X returned 0)
+    for i, h in enumerate(hist):
+        f = h['step'].split(':')
+        ret = h['ret']
+        for fr in h['frames']:
+            side, c, sid, seq, cl, ln = fr
+            E.setdefault((side, sid), []).append((seq, cl, ln, i))
+        for (kind, side, sid, k, code, n, d) in h['pends']:
+            if kind == 'R' and code == 0:
+                R[(side, sid)] = R.get((side, sid), '') + d
+        if f[0] == 'W' and ret:
+            side, sid, data = f[1], int(f[2]), ('' if f[3] == '-' else f[3])
+            code, n, _ = ret
+            if code != 4 or n > 0:
+                W[(side, sid)] = W.get((side, sid), '') + data[:2 * n]
+            if code != 0:
+                info['werr'].append((i, side, sid, code))
+            if code == 0 and (side, sid) in closed_stream:
+                info['after_close_write_ok'].append((i, side, sid))
+        elif f[0] == 'R' and ret and ret[0] == 0:
+            R[(f[1], int(f[2]))] = R.get((f[1], int(f[2])), '') + ret[2]
+        elif f[0] == 'X' and ret:
+            info['local_close'].add((f[1], int(f[2])))
+            if ret[0] == 0:
+                closed_stream.add((f[1], int(f[2])))
+        elif f[0] == 'Z':
+            info['sess_close'].add(f[1])
+        elif f[0] == 'F':
+            info['fail'] = True
+        elif f[0] == 'T':
+            info['tick'] = True
+        elif f[0] == 'O' and ret:
+            info['open_ret'].append((i, f[1], ret[0], ret[1]))
+    return W, R, E, info
+
+
+def other(side):
+    return 'B' if side == 'A' else 'A'
+
+
+def oracle_c01(scn, hist):
+    """every stream, both directions: what was read is a prefix of what was written on that same
+    stream; in scenarios without close / fault / timer it is all of it once everything has been
+    delivered and read, no write fails and both sessions are still up."""
+    W, R, E, info = digest(hist)
+    for (side, sid), got in R.items():
+        want = W.get((other(side), sid), '')
+        if not want.startswith(got):
+            return ('corrupt', 'stream %d towards %s: read %d bytes that are not a prefix of the %d bytes written (first difference at byte %d)'
+                    % (sid, side, len(got) // 2, len(want) // 2, next((j // 2 for j in range(0, min(len(got), len(want)), 2) if got[j:j + 2] != want[j:j + 2]), min(len(got), len(want)) // 2)))
+    if scn.meta.get('profile') in ('data', 'big') and not scn.sp:
+        for (side, sid), want in W.items():
+            got = R.get((other(side), sid), '')
+            if got != want:
+                return ('lost', 'stream %d from %s: %d bytes written, %d read after everything was delivered and drained' % (sid, side, len(want) // 2, len(got) // 2))
+        if info['werr']:
+            i, side, sid, code = info['werr'][0]
+            return ('write-failed', 'step %d: write on healthy session failed with code %d' % (i, code))
+        q = hist[-1]['q'] or {}
+        for side in 'AB':
+            if q.get(side, {}).get('closed'):
+                return ('session-down', 'session %s closed although nothing failed and nobody closed it' % side)
+    return None
+
+
+def oracle_c13(scn, hist):
+    """per direction of each stream: sequence numbers 0,1,2,.. each used once, in emission order;
+    data frames carry the written bytes in order (lengths add up); the closing frame is numbered
+    after every frame of the writes completed before; (sid, seq) pairs unique per endpoint."""
+    W, R, E, info = digest(hist)
+    for (side, sid), frames in E.items():
+        if sid == 4294967295:
+            if len(frames) > 1:
+                return ('dup-session-close', 'endpoint %s sent %d session-closing frames (same nonce)' % (side, len(frames)))
+            continue
+        seqs = [f[0] for f in frames]
+        if len(set(seqs)) != len(seqs):
+            return ('dup-seq', 'endpoint %s stream %d reused a sequence number: %s' % (side, sid, seqs[:20]))
+        if seqs != sorted(seqs):
+            return ('order', 'endpoint %s stream %d emitted sequence numbers out of order: %s' % (side, sid, seqs[:20]))
+        failures = any(h['ret'] and h['ret'][0] == 4 for h in hist)
+        if not failures and seqs != list(range(len(seqs))):
+            return ('gap', 'endpoint %s stream %d: sequence numbers %s are not 0..n-1 although no send failed' % (side, sid, seqs[:20]))
+        closing = [f for f in frames if f[1] != 0]
+        if closing and closing[0][0] != max(seqs) and not scn.sp:
+            return ('close-not-last', 'endpoint %s stream %d: closing frame numbered %d but a frame numbered %d exists' % (side, sid, closing[0][0], max(seqs)))
+        datalen = sum(f[2] for f in frames if f[1] == 0)
+        if not failures and datalen != len(W.get((side, sid), '')) // 2:
+            return ('length', 'endpoint %s stream %d: data frames carry %d bytes, writes accepted %d' % (side, sid, datalen, len(W.get((side, sid), '')) // 2))
+    return None
+
+
+def oracle_c03(scn, hist):
+    """sender writes B then closes; the other side, not having closed the stream itself and with
+    nothing failing, reads exactly B and then the broken-stream error; after a close (local or
+    processed) writes fail and blocked reads return; buffered bytes stay readable after a local close."""
+    W, R, E, info = digest(hist)
+    if info['after_close_write_ok']:
+        i, side, sid = info['after_close_write_ok'][0]
+        return ('write-after-close', 'step %d: write on stream %d succeeded at %s after %s had closed it' % (i, sid, side, side))
+    quiet = not info['fail'] and not info['sess_close'] and not info['tick'] and not scn.sp
+    q = hist[-1]['q'] or {}
+    if quiet and (q.get('A', {}).get('closed') or q.get('B', {}).get('closed')):
+        quiet = False
+    # the final reads of the scenario: R:<side>:<sid>:1000000 then R:<side>:<sid>:1
+    final = {}
+    for h in hist:
+        f = h['step'].split(':')
+        if f[0] == 'R' and h['ret']:
+            final[(f[1], int(f[2]))] = h['ret']
+    if quiet:
+        for (side, sid) in info['local_close']:
+            o = other(side)
+            if (o, sid) in info['local_close']:
+                continue   # simultaneous / both-side closes: prefix only (checked by C01's oracle)
+            if (side, sid) not in E or not any(f[1] != 0 for f in E[(side, sid)]):
+                continue   # the close did not put a closing frame on the wire (already closed)
+            want = W.get((side, sid), '')
+            got = R.get((o, sid), '')
+            if got != want:
+                return ('lost-tail', 'stream %d: %s wrote %d bytes and closed, %s read %d bytes' % (sid, side, len(want) // 2, o, len(got) // 2))
+            fin = final.get((o, sid))
+            if fin is not None and fin[0] != 1:
+                return ('no-eof', 'stream %d: after reading everything %s got code %d instead of the broken-stream error' % (sid, o, fin[0]))
+    return None
+
+
+def oracle_c12(scn, hist):
+    """after a fault or a session close every reader got a prefix then an error (prefix: C01's
+    oracle), nothing stays blocked, new streams are refused, all connections of a closed session
+    end up closed; count of active streams = number of open streams at every quiescent moment of a
+    live session; the inactivity timer closes a multiplexed session only while it has no open stream."""
+    W, R, E, info = digest(hist)
+    r = oracle_c01(Scn(scn.id, meta=dict(profile='prefix-only')), hist)
+    if r:
+        return r
+    closed_seen = {'A': False, 'B': False}
+    for i, h in enumerate(hist):
+        f = h['step'].split(':')
+        if h['q']:
+            for side in 'AB':
+                qs = h['q'].get(side)
+                if qs and not qs['closed'] and qs['count'] != qs['live']:
+                    return ('count-drift', 'step %d: session %s is live with activeStreamCount=%d but %d open streams' % (i, side, qs['count'], qs['live']))
+                if qs and qs['closed']:
+                    closed_seen[side] = True
+        if f[0] == 'O' and h['ret'] and closed_seen.get(f[1]) and h['ret'][0] == 0:
+            return ('open-after-close', 'step %d: OpenStream succeeded on closed session %s' % (i, f[1]))
+        if f[0] == 'T':
+            # a session-closing frame sent during a tick = inactivity close: only with no open stream
+            for fr in h['frames']:
+                if fr[2] == 4294967295:
+                    prevq = next((x['q'] for x in reversed(hist[:i]) if x['q']), None)
+                    if prevq and prevq.get(fr[0], {}).get('live', 0) > 0 and not prevq[fr[0]]['closed']:
+                        return ('timer-with-open-stream', 'step %d: session %s closed itself on the inactivity timer with %d open streams' % (i, fr[0], prevq[fr[0]]['live']))
+    q = hist[-1]['q']
+    if q:
+        for side in 'AB':
+            if q[side]['closed']:
+                # every connection end of that side is closed (after FINs were delivered in the drain phase)
+                for c, v in q.items():
+                    if c.startswith('c') and not v['failed'] and not v['cl' + side]:
+                        return ('conn-left-open', 'session %s is closed but its end of connection %s is still open after the drain' % (side, c[1:]))
+        if q['A']['closed'] and q['B']['closed'] and q.get('pending', 0) > 0:
+            return ('left-blocked', '%d application calls are still blocked although both sessions are closed' % q['pending'])
+    return None
